@@ -325,9 +325,9 @@ def run_codec(run, model, unit, quick):
                     meta = eval(m.strip(), {"__builtins__": {}}, {})
                     l = l.strip()
                 cases.append((l, meta))
-    cases += gen_cases(r, 2500 if quick else 30000)
-    cases += gen_typed(r, 90 if quick else 1800)
-    cases += gen_typed_seq(r, 45 if quick else 900)
+    cases += gen_cases(r, 2500 if quick else 25000)
+    cases += gen_typed(r, 90 if quick else 1200)
+    cases += gen_typed_seq(r, 45 if quick else 450)
     lines = [c for c, _ in cases]
     rc1, impl, e1 = V.run_lines(unit, lines, timeout=900)
     ms_idx = [i for i, c in enumerate(lines) if c.startswith("MS")]
